@@ -19,7 +19,9 @@ done
 wait
 al=""
 for id in $props; do
-  if grep -q "^VIOLATION" "$sc/$id.out"; then
+  if ! grep -q "^VIOLATION\|^property=$id tier=" "$sc/$id.out"; then
+    al="$al $id(NO-VERDICT:killed?)"   # the check ended without a verdict line: not a silent result
+  elif grep -q "^VIOLATION" "$sc/$id.out"; then
     al="$al $id"
     grep "^FAIL\|^UNRES\|^UNDEC\|panic" "$sc/$id.out" | sed "s#$sc/repo/##" | cut -c1-${W:-300} | head -${N:-4} | sed "s/^/   [$id] /"
   fi
